@@ -47,7 +47,15 @@ def lrefOf (h : String) : Option (Bool × List (Axis × Test)) :=
   | some (.path .ctx steps) => (stepsOf steps).map fun l => (false, l)
   | _ => none
 
+/-- member of a union: the descriptors of `nodeTyOf`, `enum:<hex name>,…`, `str` -/
+def umemOf (d : String) : Option UMem :=
+  if d == "str" then some .str
+  else if d.startsWith "enum:" then (((d.drop 5).toString.splitOn ",").mapM Hex.dec).map UMem.enm
+  else if d.startsWith "idref:" then (((d.drop 6).toString.splitOn ",").mapM identOfTok).map UMem.idref
+  else (Val.Drv.parseTy d).map UMem.val
+
 def nodeTyOf (d : String) : Option NodeTy :=
+  if d.startsWith "union:" then (((d.drop 6).toString.splitOn "|").mapM umemOf).map NodeTy.union else
   if d.startsWith "idref:" then
     (((d.drop 6).toString.splitOn ",").mapM identOfTok).map NodeTy.idref
   else (Val.Drv.parseTy d).map NodeTy.val
@@ -70,6 +78,7 @@ def addFact (f : Facts) (toks : List String) : Option Facts :=
     match lrefOf h with
     | some l => some { f with lrefs := f.lrefs ++ [(path.toUTF8.toList, l)] }
     | none => none
+  | ["#inst", path] => some { f with insts := f.insts ++ [path.toUTF8.toList] }
   | ["#type", path, d] => (nodeTyOf d).map fun t => { f with types := f.types ++ [(path.toUTF8.toList, t)] }
   | _ => some f
 
@@ -263,7 +272,7 @@ def render : Except Err (Value Float) → String
   | .ok (.num n) => "ok num " ++ numTok n
   | .ok (.bool b) => "ok bool " ++ (if b then "1" else "0")
 
-def allMask : Nat := 65535
+def allMask : Nat := 131071
 
 /-- the expression of an `eval` / `find` request: THE TEXT, parsed by the model of libyang's parser; when the request also
 carries the pre-parsed prefix form (`ast-hex` other than `-`), both routes must give the same tree -/
